@@ -444,6 +444,10 @@ class CallMixin:
             a = args[0] if args else NONE
             if any(t == obj(cname) for t in self.ty(a)):
                 return a
+            if a.t[0] == "attr" and a.t[2] == "value" and a.t[1][0] in ("enumof", "enum") and a.t[1][1] == cname:
+                # Enum(member.value) is member: the round trip through the stored value keeps the identity of the term,
+                # so later tests on it agree with earlier ones on this path
+                return V(a.t[1], [obj(cname)], a.dep)
             _, _, byval = self.M.enum_members(c)
             if is_const(a):
                 if a.t[1] in byval:
